@@ -83,6 +83,17 @@ func (e *Exec) callCommon(s *State, ins ssa.Instruction, c *ssa.CallCommon, args
 		}
 	}
 	if callee == nil {
+		// a closure of an enclosing function called through the variable it was assigned to
+		// (`nextTask := func…` in the parent, `nextTask(ctx)` in a nested literal): use its contract
+		if fn := e.closureByVarName(c.Value); fn != nil {
+			if fc := e.v.db.Funcs[e.v.contractKeyFor(fn)]; fc != nil && !fc.Pure && !fc.Inline {
+				// preconditions of a closure speak about its frozen captures and are proved where the
+				// closure is created; its captured variables are not nameable at this call site
+				e.byNameCall++
+				defer func() { e.byNameCall-- }()
+				return e.applyContract(s, ins, fc, fn.Signature, nil, args, pos)
+			}
+		}
 		e.bumpAlloc(s)
 		e.logAbs("call through a function value: assumed not to touch state under contract")
 		e.v.noteTrusted("function values / callbacks are assumed not to touch state under contract")
@@ -414,10 +425,13 @@ func (e *Exec) applyContract(s *State, ins ssa.Instruction, fc *FuncContract, si
 	}
 	pre := s.clone()
 	for i, r := range fc.Requires {
+		if e.byNameCall > 0 {
+			break
+		}
 		g := sub.evalWith(e, r, s, s, vars)
 		if e.quiet == 0 {
 			e.obls = append(e.obls, &Obligation{Name: fmt.Sprintf("%s/call:%s#%d/requires#%d", e.funcKey, cname, ord, i+1), Kind: "requires-at-call",
-				Pos: pos, Goal: g, Hyp: s.pc, Func: e.funcKey, Text: r.Text, Props: unionProps(orProps(r.Props, orProps(fc.Props, e.props))), Mode: e.mode, exec: e})
+				Pos: pos, Goal: g, Hyp: s.pc, Func: e.funcKey, Text: r.Text, Props: requiresProps(r.Props, fc.Props, e.props), Mode: e.mode, exec: e})
 		}
 		s.assume(g)
 	}
@@ -1271,4 +1285,41 @@ func freeVarReadOnly(fn *ssa.Function, i int, depth int) bool {
 		return true
 	}
 	return okUse(fn.FreeVars[i], 0)
+}
+
+// closureByVarName: the function literal assigned (once, at its declaration) to the captured or local
+// variable the called value was loaded from.
+func (e *Exec) closureByVarName(v ssa.Value) *ssa.Function {
+	u, ok := v.(*ssa.UnOp)
+	if !ok {
+		return nil
+	}
+	name := ""
+	switch x := u.X.(type) {
+	case *ssa.FreeVar:
+		name = x.Name()
+	case *ssa.Alloc:
+		name = x.Comment
+	}
+	if name == "" || e.fn == nil {
+		return nil
+	}
+	for p := e.fn; p != nil; p = p.Parent() {
+		for _, af := range p.AnonFuncs {
+			if e.v.closureName(af) == name {
+				return af
+			}
+		}
+	}
+	return nil
+}
+
+// requiresProps: a precondition checked at a call belongs to the callee's properties (its proof
+// assumed it) and to the caller's (the caller's proof uses the callee's postconditions). A clause
+// tagged with its own properties ("requires [C07] …") belongs to those only.
+func requiresProps(clause, callee, caller []string) []string {
+	if len(clause) > 0 {
+		return clause
+	}
+	return unionProps(callee, caller)
 }
